@@ -90,7 +90,89 @@ Definition classify_ctx (input : list N) (o : obs) : N :=
        | _, m => if obs_eqb o m then 0 else 1
        end.
 
+(* ---- literals printed back in every syntactic position ----
+   The harness writes a ledger text whose numbers stand in the positions where the parser reads
+   a literal and the printer writes it back (posting amount, operands of a value expression,
+   lot price, cost, balance assertion / assignment, `format` line of a commodity directive) and
+   hands over that text together with what `okane format`, `okane primitive format` and
+   `okane primitive flatten` printed for it.  The literals are found in both texts by the same
+   tokenizer; nothing else in the generated texts contains a digit except dates (which have `/`). *)
+
+(* what one print command did *)
+Inductive pobs :=
+| PText (t : list N)
+| PErr
+| PPanic.
+
+(* separators: white space ( ) { } [ ] = @ ; and, inside parentheses, the operator `-`
+   (there a leading `-` is the unary operator, not part of the literal: parse/expr.rs unary_expr) *)
+Definition is_sep (depth : nat) (c : N) : bool :=
+  (c =? 32) || (c =? 10) || (c =? 13) || (c =? 9) || (c =? 40) || (c =? 41) || (c =? 123) || (c =? 125) ||
+  (c =? 91) || (c =? 93) || (c =? 61) || (c =? 64) || (c =? 59) ||
+  (match depth with O => false | _ => c =? 45 end).
+
+Definition flush (cur : list N) (acc : list (list N)) : list (list N) :=
+  match cur with [] => acc | _ => rev cur :: acc end.
+
+(* maximal runs of non-separators, in order *)
+Fixpoint tokens_aux (l : list N) (depth : nat) (cur : list N) (acc : list (list N)) : list (list N) :=
+  match l with
+  | [] => rev (flush cur acc)
+  | c :: r =>
+      let depth' := if c =? 40 then S depth else if c =? 41 then pred depth else depth in
+      if is_sep depth c then tokens_aux r depth' [] (flush cur acc)
+      else tokens_aux r depth' (c :: cur) acc
+  end.
+Definition tokens (l : list N) : list (list N) := tokens_aux l 0 [] [].
+
+Definition lit_char (c : N) : bool := is_digit c || (c =? 44) || (c =? 46) || (c =? 45).
+(* a token that can only be meant as a number: made of 0-9 , . - with at least one digit *)
+Definition numeric (t : list N) : bool := forallb lit_char t && existsb is_digit t.
+Definition literals (text : list N) : list (list N) := filter numeric (tokens text).
+
+(* the property on one literal and its printed form: the printed form is a well-formed literal
+   with the same sign, value and number of places, and the same grouping style when there are
+   thousands to group *)
+Definition printed_ok (src shown : list N) : bool :=
+  match spec_scan src, spec_scan shown with
+  | Some t, Some t' =>
+      let d := pdec_of t in let d' := pdec_of t' in
+      fits t && Bool.eqb (neg d) (neg d') && (mant d =? mant d') && (scale d =? scale d')%nat &&
+      (negb (big d) || (fmt_code (pfmt d) =? fmt_code (pfmt d')))
+  | _, _ => false
+  end.
+
+Definition lit_accepted (src : list N) : bool :=
+  match spec_scan src with Some t => fits t | None => false end.
+
+Fixpoint all2 {A} (f : A -> A -> bool) (a b : list A) : bool :=
+  match a, b with
+  | [], [] => true
+  | x :: a', y :: b' => f x y && all2 f a' b'
+  | _, _ => false
+  end.
+
+Definition model_show (src : list N) : list N :=
+  match scan src with SOk d => show d | SErr _ => [] end.
+
+Definition classify_printed (src : list N) (o : pobs) : N :=
+  let ls := literals src in
+  match o with
+  | PPanic => 2
+  | PErr =>
+      (* every text the generator writes is grammatical apart from its literals: a text all of
+         whose literals are well-formed and representable must be printed *)
+      if forallb lit_accepted ls then 2
+      else if forallb (fun s => match scan s with SOk _ => true | SErr _ => false end) ls then 1 else 0
+  | PText t =>
+      let ps := literals t in
+      if negb (forallb lit_accepted ls) then 2          (* printed although a literal is not well-formed *)
+      else if negb (all2 printed_ok ls ps) then 2       (* a literal lost, gained or changed in print *)
+      else if all2 list_eqb (map model_show ls) ps then 0 else 1
+  end.
+
 Inductive case :=
+| Printed (src : list N) (os : list pobs)   (* one verdict per print command *)
 | InCtx (input : list N) (o : obs)
 | Single (input : list N) (o : obs)
 | Block (alpha : list N) (prefix : list N) (n : nat) (os : list obs).
@@ -98,6 +180,7 @@ Inductive case :=
 
 Definition classify (c : case) : list N :=
   match c with
+  | Printed src os => map (classify_printed src) os
   | InCtx i o => [classify_ctx i o]
   | Single i o => [classify1 i o]
   | Block alpha pre n os =>
